@@ -481,6 +481,9 @@ func (p *Printer) raw(n *Node) {
 	switch n.K {
 	case "none":
 	case "int":
+		if n.Q > 0 && n.I >= 0 {
+			p.w(strings.Repeat("0", n.Q))
+		}
 		p.w(strconv.FormatInt(n.I, 10))
 	case "flt":
 		p.w(n.S)
